@@ -70,6 +70,17 @@ def one(ck, cls):
     c = [n for n in dt.calls() if is_reset(n)]
     ok = bool(c) and g.must_pass(set(g.sites_of_nodes(c)))
     ck.ob("C04-O1", sitestr(dt), ok, "%s: the destructor stops the own thread on every path" % tag if ok else "%s: the destructor does not call resetOwnThread(): the thread outlives its handler" % tag, key="~OwnThreadHandler|no-reset")
+    # the count the drain loop waits on means "accepted and not yet delivered" only if nobody resets it: a store to it abandons
+    # whatever is still queued (quit() then ends the event loop with the events undelivered)
+    STORES = ("storeRelease", "store", "storeRelaxed", "storeSeqCst", "operator=", "fetchAndStoreOrdered", "fetchAndStoreRelease", "fetchAndStoreAcquire", "fetchAndStoreRelaxed", "exchange",
+              "testAndSetOrdered", "testAndSetRelease", "testAndSetAcquire", "testAndSetRelaxed", "compare_exchange_strong", "compare_exchange_weak")
+    for f_ in F.units_of(lambda f: bool(f.cls) and f.cls.startswith(cls)):
+        if f_.d.get("kind") == "ctor":
+            continue
+        for n_ in f_.calls():
+            if is_field(n_.get("obj") if n_.get("ck") == "member" else (n_.get("args") or [None])[0], P) and (name_is(n_.get("callee"), STORES) or n_.get("op") == "="):
+                ck.ob("C04-O3", sitestr(f_, n_), False, "%s: the pending count is overwritten (%s) in %s: the drain loop then ends although accepted messages are still queued, and quit() discards them" %
+                      (tag, describe(n_)[:50], strip_tmpl(f_.name).split("::")[-1]), key="m_pendingCount|reset|%s" % strip_tmpl(f_.name).split("::")[-1])
     # ---- O2
     g = Graph(mv)
     conns = [n for n in mv.calls("QObject::connect")]
